@@ -514,7 +514,7 @@ class Parser:
             # The precedence makes the comma left-associative.
 
             pstate.advance()
-            if pstate.is_at_end() or pstate.next_tag() is _closepar:
+            if pstate.is_at_end() or pstate.next_tag() in (_closepar, _closebracket):
                 if isinstance(left_exp, (tuple, list)) \
                         and not isinstance(left_exp, FinalizedContainer):
                     # left_expr is a container with trailing commas
